@@ -123,7 +123,7 @@ void harness(void) {
 	hchacha(key, KEYSIZE, iv, ROUNDS, dst);
 	ref_hchacha(IN.key, KEYBITS, IVNULL ? NULL : IN.iv, ROUNDS, ref);
 	for (int i = 0; i < 32; i++)
-		V_ASSERT(dst[i] == ref[i], "hchacha output == reference HChaCha (words 0..3, 12..15 after the rounds)");
+		V_ASSERT(dst[i] == ref[i], "KS: hchacha output == reference HChaCha (words 0..3, 12..15 after the rounds, no feed-forward)");
 	for (int i = 0; i < ((KEYBITS == 256) ? 32 : 16); i++)
 		V_ASSERT(key[i] == IN.key[i], "key not modified");
 	V_WITNESS_MUST("hchacha done");
